@@ -155,9 +155,15 @@ Fixpoint reg_run (w : world) (p : list regop) : option world :=
     (descriptor.py:180-187); the managers are held by reference, so listeners added
     after the method was declared are seen *)
 Record desc := { d_mgrs : list nat; d_cls : nat }.
-Definition desc_managers (w : world) (d : desc) : option (list emgr) :=
+(** what MethodDescriptor.__init__ puts into event_managers, in order: the managers given to
+    the decorator [DMeth], the service class's manager [DSvc].  The list of parts is GENERATED
+    (Gen.Pipeline.g_desc_parts); the translator also checks that nothing else in the package
+    assigns to or mutates a descriptor's event_managers (the descriptor is shared by every
+    Application that exposes the service) *)
+Inductive dpart := DMeth | DSvc.
+Definition desc_managers (parts : list dpart) (w : world) (d : desc) : option (list emgr) :=
   match opt_all (map (nth_error (w_meth w)) (d_mgrs d)), nth_error (w_cls w) (d_cls d) with
-  | Some ms, Some c => Some (ms ++ [c])
+  | Some ms, Some c => Some (flat_map (fun p => match p with DMeth => ms | DSvc => [c] end) parts)
   | _, _ => None
   end.
 
